@@ -136,6 +136,7 @@ func init() {
 				}})
 		},
 		Oracles:      []scn.Oracle{oracleC13},
+		Extra:        c13Sched,
 		NeedOutcomes: []string{"State_ClaimedPreimage"},
 	})
 	register(&PropSpec{
@@ -172,7 +173,7 @@ func init() {
 func init() {
 	register(&PropSpec{
 		ID: "C07", Level: "model_checking",
-		Rule: "explicit-state BFS by replay of both maker roles on both chains with peer silence (drop), cancel / bad coop_close / invalid message injection, service faults after the wallet broadcast, wallet output orderings, restarts and a crash at every effect operation; invariant on the durable record in every state plus a deterministic drain to CSV maturity",
+		Rule: "explicit-state BFS by replay of both maker roles on both chains with peer silence (drop), cancel / bad coop_close / invalid message injection, service faults after the wallet broadcast and during recovery (height, label, balance lookups), a wallet that holds little more than the swap, wallet output orderings, restarts and a crash at every effect operation; invariant on the durable record in every state plus a deterministic drain to CSV maturity",
 		Families: func(tier string) []Family {
 			var out []Family
 			for _, idx := range []int{0, 1} {
@@ -184,7 +185,11 @@ func init() {
 						f.Name += fmt.Sprintf("/swapout@%d", idx)
 						f.Cfg.AWallet.SwapOutIndex, f.Cfg.AWallet.ExtraOuts = idx, 1
 						ch := f.Cfg.Chain
-						f.Cfg.Flags.Faults = []string{ch + ".getblockcount", ch + ".createopening.after", ch + ".setlabel"}
+						f.Cfg.Flags.Faults = []string{ch + ".getblockcount", ch + ".createopening.after", ch + ".setlabel", ch + ".balance"}
+						if idx == 1 {
+							// a wallet that holds little more than this one swap: after the opening transaction its balance is below the swap amount
+							f.Cfg.AWallet.Balance = scn.Amount * 3 / 2
+						}
 					}})
 				out = append(out, early...)
 			}
@@ -210,6 +215,7 @@ func init() {
 				bounds: pick(tier, mc.Bounds{MaxDepth: 6, MaxDev: 1, Budget: 100 * time.Second}, mc.Bounds{MaxDepth: 8, MaxDev: 2, Budget: 14 * time.Minute})})
 		},
 		Oracles:      []scn.Oracle{oracleC16},
+		Extra:        c16Watchers,
 		NeedOutcomes: []string{"State_ClaimedPreimage"},
 	})
 	register(&PropSpec{
@@ -225,17 +231,18 @@ func init() {
 	})
 	register(&PropSpec{
 		ID: "C22", Level: "model_checking",
-		Rule: "explicit-state BFS of both maker roles after the announcement: payment, cancel, coop_close good/bad, invalid message, CSV, a refund broadcast that fails once or for longer than the retry budget, restart, interleaved with virtual-time steps; the oracle is interval-agnostic (send instants of opening_tx_broadcasted form one arithmetic progression while waiting; at most one already-due copy afterwards)",
+		Rule: "explicit-state BFS of both maker roles after the announcement: payment, cancel, coop_close good/bad, invalid message, CSV, a refund broadcast that fails once or for longer than the retry budget, a transport that fails for 25 sends, restart, crash points after durable writes (thorough: everywhere), interleaved with virtual-time steps; the oracle is interval-agnostic (send instants of opening_tx_broadcasted form one arithmetic progression while waiting; at most one already-due copy afterwards)",
 		Families: func(tier string) []Family {
 			return mkFamilies(famOpt{announced: true, chains: bothChain, roles: makers, backends: []bool{false},
 				flags:  scn.Flags{Blocks: true, Time: true, Restart: true, Drop: true, Inject: true, PayPlan: false, MaxTime: 4, MaxBlocks: 2, NoWinJump: true, TimeAlways: true},
-				bounds: pick(tier, mc.Bounds{MaxDepth: 6, MaxDev: 2, Budget: 80 * time.Second, NoCrash: true}, mc.Bounds{MaxDepth: 8, MaxDev: 3, Budget: 10 * time.Minute, NoCrash: true}),
+				bounds: pick(tier, mc.Bounds{MaxDepth: 6, MaxDev: 2, Budget: 80 * time.Second, CrashAfterStore: true}, mc.Bounds{MaxDepth: 8, MaxDev: 3, Budget: 10 * time.Minute}),
 				tweak: func(f *Family) {
 					// the refund (or claim) broadcast may fail once, or for longer than the retry budget
-					f.Cfg.Flags.Faults = []string{f.Cfg.Chain + ".spend", f.Cfg.Chain + ".spend*25"}
+					f.Cfg.Flags.Faults = []string{f.Cfg.Chain + ".spend", f.Cfg.Chain + ".spend*25", "msg.send*25"}
 				}})
 		},
 		Oracles:      []scn.Oracle{oracleC22},
+		Extra:        c22Sched,
 		NeedOutcomes: []string{"State_ClaimedPreimage", "State_WaitCsv"},
 	})
 }
